@@ -1,6 +1,6 @@
 """C08 — invariance under rigid motions: only the longitude-alias clause (L vs L +- 360 degrees) is decided."""
 from .. import facts, run
-from ..rules import dep, footprint, kernels
+from ..rules import dep, footprint, kernels, pure
 
 
 def main(tier):
@@ -16,6 +16,9 @@ def main(tier):
     rep.assumptions.append("translation / rotation invariance in Cartesian worlds and longitude-offset invariance are statements about real "
                            "arithmetic in every kernel: decided only for the distance kernels of Point (closed forms that are invariant by inspection of "
                            "the formula); otherwise only the 'L vs L+-360' clause is claimed")
+    # the answer does not depend on what was queried before (no cache that outlives a query: a necessary condition for a
+    # statement about 'all worlds and all points', which includes a second world in the same process)
+    pure.run(P, rep, pure.query_roots(P))
     rep.explanation = ("Longitude-alias discipline: shape and exclusive use of the alias wrappers, presence of the 2*pi alias in every "
                        "function of the frozen list of alias-aware sites, and symmetry of the point/alias twin blocks in the ridge-distance "
                        "routine.")
